@@ -7,6 +7,7 @@ import (
 	"fmt"
 	"io"
 	"net"
+	"reflect"
 	"strconv"
 	"strings"
 	"time"
@@ -56,12 +57,39 @@ type wrapComp struct{}
 
 func init() { register("wrap", wrapComp{}) }
 
+// wrapBuild is the state of one composition: every object returned by a constructor call (every node of
+// the description, in prefix order) is a handle.
+type wrapBuild struct {
+	res     []counter
+	objs    []interface{} // handle index -> object
+	parent  []int         // handle index -> enclosing handle (-1 for the outermost)
+	lo, hi  []int         // handle index -> range of resources under it
+	closedH []bool        // Close has been issued on this handle
+}
+
+func (b *wrapBuild) open(parent int) int {
+	h := len(b.objs)
+	b.objs = append(b.objs, nil)
+	b.parent = append(b.parent, parent)
+	b.lo = append(b.lo, len(b.res))
+	b.hi = append(b.hi, 0)
+	b.closedH = append(b.closedH, false)
+	return h
+}
+
+func (b *wrapBuild) done(h int, v interface{}) interface{} {
+	b.objs[h] = v
+	b.hi[h] = len(b.res)
+	return v
+}
+
 // buildDesc parses the prefix description and applies the real constructors.
-func buildDesc(toks []string, res *[]counter) (interface{}, []string, error) {
+func buildDesc(toks []string, b *wrapBuild, parent int) (interface{}, []string, error) {
 	if len(toks) == 0 {
 		return nil, nil, errors.New("short")
 	}
 	t, rest := toks[0], toks[1:]
+	h := b.open(parent)
 	switch {
 	case strings.HasPrefix(t, "R") && len(t) >= 4:
 		id, err := strconv.Atoi(t[3:])
@@ -71,14 +99,14 @@ func buildDesc(toks []string, res *[]counter) (interface{}, []string, error) {
 		fails := t[2] == 'f'
 		if t[1] == 'h' {
 			r := &fakeConnClosed{fakeConn{id: id, fails: fails}}
-			*res = append(*res, r)
-			return r, rest, nil
+			b.res = append(b.res, r)
+			return b.done(h, r), rest, nil
 		}
 		r := &fakeConn{id: id, fails: fails}
-		*res = append(*res, r)
-		return r, rest, nil
+		b.res = append(b.res, r)
+		return b.done(h, r), rest, nil
 	case len(t) == 2 && (t[0] == 'S' || t[0] == 'N'):
-		inner, rest, err := buildDesc(rest, res)
+		inner, rest, err := buildDesc(rest, b, h)
 		if err != nil {
 			return nil, nil, err
 		}
@@ -88,68 +116,68 @@ func buildDesc(toks []string, res *[]counter) (interface{}, []string, error) {
 			if !ok {
 				return nil, nil, errors.New("type")
 			}
-			return streams.NewSafeConnection(c), rest, nil
+			return b.done(h, streams.NewSafeConnection(c)), rest, nil
 		case "Ss":
 			c, ok := inner.(io.ReadWriteCloser)
 			if !ok {
 				return nil, nil, errors.New("type")
 			}
-			return streams.NewSafeStream(c), rest, nil
+			return b.done(h, streams.NewSafeStream(c)), rest, nil
 		case "Sr":
 			c, ok := inner.(io.ReadCloser)
 			if !ok {
 				return nil, nil, errors.New("type")
 			}
-			return streams.NewSafeReader(c), rest, nil
+			return b.done(h, streams.NewSafeReader(c)), rest, nil
 		case "Sw":
 			c, ok := inner.(io.WriteCloser)
 			if !ok {
 				return nil, nil, errors.New("type")
 			}
-			return streams.NewSafeWriter(c), rest, nil
+			return b.done(h, streams.NewSafeWriter(c)), rest, nil
 		case "Nc":
 			c, ok := inner.(net.Conn)
 			if !ok {
 				return nil, nil, errors.New("type")
 			}
-			return streams.NewNamedConnection(c, "n"), rest, nil
+			return b.done(h, streams.NewNamedConnection(c, "n")), rest, nil
 		case "Ns":
 			c, ok := inner.(io.ReadWriteCloser)
 			if !ok {
 				return nil, nil, errors.New("type")
 			}
-			return streams.NewNamedStream(c, "n"), rest, nil
+			return b.done(h, streams.NewNamedStream(c, "n")), rest, nil
 		case "Nr":
 			c, ok := inner.(io.ReadCloser)
 			if !ok {
 				return nil, nil, errors.New("type")
 			}
-			return streams.NewNamedReader(c, "n"), rest, nil
+			return b.done(h, streams.NewNamedReader(c, "n")), rest, nil
 		case "Nw":
 			c, ok := inner.(io.WriteCloser)
 			if !ok {
 				return nil, nil, errors.New("type")
 			}
-			return streams.NewNamedWriter(c, "n"), rest, nil
+			return b.done(h, streams.NewNamedWriter(c, "n")), rest, nil
 		}
 		return nil, nil, errors.New("bad token")
 	case t == "P":
-		a, rest, err := buildDesc(rest, res)
+		x, rest, err := buildDesc(rest, b, h)
 		if err != nil {
 			return nil, nil, err
 		}
-		b, rest, err := buildDesc(rest, res)
+		y, rest, err := buildDesc(rest, b, h)
 		if err != nil {
 			return nil, nil, err
 		}
-		r, ok1 := a.(io.ReadCloser)
-		w, ok2 := b.(io.WriteCloser)
+		r, ok1 := x.(io.ReadCloser)
+		w, ok2 := y.(io.WriteCloser)
 		if !ok1 || !ok2 {
 			return nil, nil, errors.New("type")
 		}
-		return streams.NewReadWriteCloser(r, w), rest, nil
+		return b.done(h, streams.NewReadWriteCloser(r, w)), rest, nil
 	case t == "I" || t == "T":
-		inner, rest, err := buildDesc(rest, res)
+		inner, rest, err := buildDesc(rest, b, h)
 		if err != nil {
 			return nil, nil, err
 		}
@@ -158,55 +186,168 @@ func buildDesc(toks []string, res *[]counter) (interface{}, []string, error) {
 			return nil, nil, errors.New("type")
 		}
 		if t == "I" {
-			return streams.NewSimulatedConnection(c, fakeAddr{}, fakeAddr{}), rest, nil
+			return b.done(h, streams.NewSimulatedConnection(c, fakeAddr{}, fakeAddr{})), rest, nil
 		}
-		return streams.NewStreamConnection(c, &fakeConn{id: -1}), rest, nil
+		return b.done(h, streams.NewStreamConnection(c, &fakeConn{id: -1})), rest, nil
 	}
 	return nil, nil, errors.New("bad token")
 }
 
+// flagObjs returns the Safe* objects whose closed flags make up the status of v: a Safe* object itself,
+// the embedded Safe* object of a Named*/Simulated/StreamWrapped wrapper, both halves of a pair.  Read off
+// the real objects (exported embedded interface fields), not off the description.
+func flagObjs(v interface{}) []interface{} {
+	switch v.(type) {
+	case *streams.SafeConnection, *streams.SafeStream, *streams.SafeReader, *streams.SafeWriter:
+		return []interface{}{v}
+	}
+	rv := reflect.ValueOf(v)
+	if rv.Kind() != reflect.Ptr || rv.IsNil() || rv.Elem().Kind() != reflect.Struct || rv.Elem().Type().PkgPath() != reflect.TypeOf(streams.SafeStream{}).PkgPath() {
+		return nil
+	}
+	var out []interface{}
+	st := rv.Elem()
+	for i := 0; i < st.NumField(); i++ {
+		f := st.Type().Field(i)
+		if f.Anonymous && f.Type.Kind() == reflect.Interface && f.IsExported() && !st.Field(i).IsNil() {
+			out = append(out, flagObjs(st.Field(i).Interface())...)
+		}
+	}
+	return out
+}
+
+// closeIssuedAbove: a Close has been issued on handle h or on a handle enclosing it.
+func (b *wrapBuild) closeIssuedAbove(h int) bool {
+	for ; h >= 0; h = b.parent[h] {
+		if b.closedH[h] {
+			return true
+		}
+	}
+	return false
+}
+
+// touched: a Close has been issued on a handle that is or encloses object x (x seen from handle h, which
+// holds it; x itself may also be a handle further down: the constructors reuse already-safe arguments).
+func (b *wrapBuild) touched(x interface{}, h int) bool {
+	if b.closeIssuedAbove(h) {
+		return true
+	}
+	for c, o := range b.objs {
+		if o == x && b.closeIssuedAbove(c) {
+			return true
+		}
+	}
+	return false
+}
+
+func (b *wrapBuild) allClosedOnce(h int) bool {
+	for _, r := range b.res[b.lo[h]:b.hi[h]] {
+		if r.closeCount() != 1 {
+			return false
+		}
+	}
+	return true
+}
+
+// parseWrapOps: op tokens `<handle index>?<letters>+` (no index = handle 0, the outermost).
+func parseWrapOps(toks []string) (hs []int, os []byte, ok bool) {
+	for _, t := range toks {
+		i := 0
+		for i < len(t) && t[i] >= '0' && t[i] <= '9' {
+			i++
+		}
+		if i == len(t) || i > 6 {
+			return nil, nil, false
+		}
+		h := 0
+		if i > 0 {
+			h, _ = strconv.Atoi(t[:i])
+		}
+		for _, c := range []byte(t[i:]) {
+			if !strings.ContainsRune("CQRWS", rune(c)) {
+				return nil, nil, false
+			}
+			hs = append(hs, h)
+			os = append(os, c)
+		}
+	}
+	return hs, os, true
+}
+
 func (wrapComp) Exec(op string) (string, string, string, bool) {
 	toks := strings.Fields(op)
-	var res []counter
-	v, rest, err := buildDesc(toks, &res)
+	b := &wrapBuild{}
+	_, rest, err := buildDesc(toks, b, -1)
 	if err != nil || len(rest) < 1 || rest[0] != "|" {
 		return "bad-op", "", "bad", false
 	}
-	ops := ""
-	if len(rest) == 2 {
-		ops = rest[1]
+	hs, os, ok := parseWrapOps(rest[1:])
+	if !ok {
+		return "bad-op", "", "bad", false
 	}
-	_, isRes := v.(counter)
+	for _, h := range hs {
+		if h >= len(b.objs) {
+			return "bad-op", "", "bad", false
+		}
+		if _, isRes := b.objs[h].(counter); isRes {
+			return "bad-op", "", "bad", false
+		}
+	}
 	var outs []string
 	mon := ""
-	closes := 0
+	closes, inner := 0, 0
 	note := func(s string) {
 		if mon == "" {
 			mon = s
 		}
 	}
-	for i, o := range ops {
+	for i, o := range os {
+		h := hs[i]
+		v := b.objs[h]
+		if h != 0 {
+			inner++
+		}
 		switch o {
 		case 'C':
+			before := b.touched(v, h)
 			err := v.(io.Closer).Close()
 			closes++
+			b.closedH[h] = true
 			if err == nil {
 				outs = append(outs, "ok")
 			} else {
 				outs = append(outs, "err")
-				if closes > 1 && !isRes {
-					note(fmt.Sprintf("op %d: repeated Close returned an error", i))
+				if before {
+					note(fmt.Sprintf("op %d: repeated Close on handle %d returned an error", i, h))
 				}
+			}
+			if !b.allClosedOnce(h) {
+				note(fmt.Sprintf("op %d: after Close on handle %d a resource under it has not been closed exactly once", i, h))
 			}
 		case 'Q':
 			if c, ok := v.(streams.Closed); ok {
-				b := c.Closed()
-				outs = append(outs, strconv.FormatBool(b))
-				if !isRes && b != (closes > 0) {
-					note(fmt.Sprintf("op %d: Closed()=%v after %d closes", i, b, closes))
+				q := c.Closed()
+				outs = append(outs, strconv.FormatBool(q))
+				if q && !b.allClosedOnce(h) {
+					note(fmt.Sprintf("op %d: handle %d reports Closed()=true but a resource under it has not been closed exactly once", i, h))
+				}
+				if q {
+					open := false
+					for _, x := range flagObjs(v) {
+						if !b.touched(x, h) {
+							open = true
+						}
+					}
+					if open {
+						note(fmt.Sprintf("op %d: handle %d reports Closed()=true before any Close that reaches it", i, h))
+					}
+				}
+				if !q && b.closeIssuedAbove(h) {
+					note(fmt.Sprintf("op %d: handle %d reports Closed()=false after its Close", i, h))
 				}
 			} else {
 				outs = append(outs, "none")
+				note(fmt.Sprintf("op %d: handle %d has no Closed()", i, h))
 			}
 		case 'R':
 			if r, ok := v.(io.Reader); ok {
@@ -221,29 +362,34 @@ func (wrapComp) Exec(op string) (string, string, string, bool) {
 		case 'S':
 			_ = fmt.Sprintf("%v", v)
 			outs = append(outs, ".")
-		default:
-			return "bad-op", "", "bad", false
 		}
-		if !isRes {
-			for _, r := range res {
-				n := r.closeCount()
-				want := 0
-				if closes > 0 {
-					want = 1
-				}
-				if n != want {
-					note(fmt.Sprintf("op %d: resource closed %d times after %d Close calls", i, n, closes))
-				}
+		for _, r := range b.res {
+			if n := r.closeCount(); n > 1 {
+				note(fmt.Sprintf("op %d: a resource has been closed %d times", i, n))
+			}
+		}
+		// handles on which (or above which) a Close has been issued stay completely closed
+		for g := range b.objs {
+			if _, isRes := b.objs[g].(counter); !isRes && b.closeIssuedAbove(g) && !b.allClosedOnce(g) {
+				note(fmt.Sprintf("op %d: handle %d was closed but a resource under it is not closed exactly once", i, g))
 			}
 		}
 	}
-	cs := make([]string, len(res))
-	for i, r := range res {
+	cs := make([]string, len(b.res))
+	for i, r := range b.res {
 		cs[i] = strconv.Itoa(r.closeCount())
 	}
-	depth := strings.Count(op, "S") + strings.Count(op, "N") + strings.Count(op, "P") + strings.Count(op, "I") + strings.Count(op, "T")
-	class := fmt.Sprintf("wrappers=%d closes=%d", depth, minInt(closes, 3))
-	return strings.Join(outs, " ") + " | " + strings.Join(cs, ","), mon, class, closes > 0 && !isRes
+	wr := len(b.objs) - len(b.res)
+	shared := 0
+	for i := range b.objs {
+		for j := 0; j < i; j++ {
+			if b.objs[i] == b.objs[j] {
+				shared = 1
+			}
+		}
+	}
+	class := fmt.Sprintf("wrappers=%d closes=%d inner=%d shared=%d pair=%v", minInt(wr, 6), minInt(closes, 3), minInt(inner, 2), shared, strings.Contains(op, "P "))
+	return strings.Join(outs, " ") + " | " + strings.Join(cs, ","), mon, class, closes > 0
 }
 
 func minInt(a, b int) int {
@@ -300,6 +446,40 @@ func allDescs(depth int, nextID *int, resVariants []string) []wdesc {
 	return out
 }
 
+// wrapperIdx: handle indices (= token positions) of the wrapper nodes of a description.
+func wrapperIdx(desc string) []int {
+	var out []int
+	for i, t := range strings.Fields(desc) {
+		if !strings.HasPrefix(t, "R") {
+			out = append(out, i)
+		}
+	}
+	return out
+}
+
+// perms calls f with every ordered selection of up to k of the given items.
+func perms(items []string, k int, f func([]string)) {
+	var cur []string
+	used := make([]bool, len(items))
+	var rec func()
+	rec = func() {
+		f(cur)
+		if len(cur) == k {
+			return
+		}
+		for i := range items {
+			if !used[i] {
+				used[i] = true
+				cur = append(cur, items[i])
+				rec()
+				cur = cur[:len(cur)-1]
+				used[i] = false
+			}
+		}
+	}
+	rec()
+}
+
 func (wrapComp) Gen(r *Rand, tier string, emit func(string)) {
 	opSeqs := []string{"", "Q", "C", "QCQ", "CC", "QRCWCQSC", "RWS", "CQCQC"}
 	variants := []string{"ho", "hf", "no", "nf"}
@@ -307,8 +487,8 @@ func (wrapComp) Gen(r *Rand, tier string, emit func(string)) {
 	if tier == "thorough" {
 		maxDepth = 4
 	}
-	// exhaustive unary chains up to maxDepth
-	for d := 0; d <= maxDepth; d++ {
+	// exhaustive unary chains up to maxDepth, ops on the outermost wrapper (old op format)
+	for d := 1; d <= maxDepth; d++ {
 		id := 0
 		for _, w := range allDescs(d, &id, variants) {
 			for _, ops := range opSeqs {
@@ -316,20 +496,104 @@ func (wrapComp) Gen(r *Rand, tier string, emit func(string)) {
 			}
 		}
 	}
-	// random trees with pairs, random op lists up to 12 ops
-	n := 3000
+	// exhaustive unary chains of depth 2: close / query the handles in every order;
+	// depth 3 (and 4 in thorough): close the handles in every order, querying every handle after each close
+	{
+		id := 0
+		for _, w := range allDescs(2, &id, []string{variants[r.Intn(4)]}) {
+			var acts []string
+			for _, h := range wrapperIdx(w.s) {
+				acts = append(acts, fmt.Sprintf("%dC", h), fmt.Sprintf("%dQ", h))
+			}
+			perms(acts, 4, func(sel []string) {
+				if len(sel) >= 2 {
+					emit(w.s + " | " + strings.Join(sel, " ") + " 0Q")
+				}
+			})
+		}
+	}
+	for d := 3; d <= maxDepth; d++ {
+		id := 0
+		for _, w := range allDescs(d, &id, []string{variants[r.Intn(4)]}) {
+			var acts, qs []string
+			for _, h := range wrapperIdx(w.s) {
+				acts = append(acts, fmt.Sprintf("%dC", h))
+				qs = append(qs, fmt.Sprintf("%dQ", h))
+			}
+			q := strings.Join(qs, " ")
+			perms(acts, 3, func(sel []string) {
+				if len(sel) >= 1 {
+					emit(w.s + " | " + q + " " + strings.Join(sel, " "+q+" ") + " " + q)
+				}
+			})
+		}
+	}
+	// pairs built from plain, fresh-wrapped and already-safe (shared) readers and writers under several
+	// outer wrappers: every order of {close a half, query/close the pair, query/close the outer wrapper}
+	outers := []string{"", "Ns", "I", "Ss"}
+	readers := []string{"R%s0", "Sr R%s0", "Nr R%s0", "Sr Sr R%s0"}
+	writers := []string{"R%s1", "Sw R%s1", "Nw R%s1", "Sw Nw R%s1"}
 	if tier == "thorough" {
-		n = 40000
+		outers = append(outers, "T", "Nc I", "Sc I", "Ss Ns")
+		readers = append(readers, "Ss R%s0", "Sr Nr R%s0", "Nr Sr R%s0")
+		writers = append(writers, "Sc R%s1", "Sw Sw R%s1", "Nw Sw R%s1")
+	}
+	for _, o := range outers {
+		for _, rd := range readers {
+			for _, wr := range writers {
+				desc := strings.TrimSpace(o + " P " + fmt.Sprintf(rd, variants[r.Intn(4)]) + " " + fmt.Sprintf(wr, variants[r.Intn(4)]))
+				toks := strings.Fields(desc)
+				pi := 0
+				for toks[pi] != "P" {
+					pi++
+				}
+				wi := pi + 1 + len(strings.Fields(rd))
+				acts := []string{fmt.Sprintf("%dQ", pi), fmt.Sprintf("%dC", pi)}
+				if pi > 0 {
+					acts = append(acts, "0C", "0Q")
+				}
+				if !strings.HasPrefix(toks[pi+1], "R") {
+					acts = append(acts, fmt.Sprintf("%dC", pi+1))
+				}
+				if !strings.HasPrefix(toks[wi], "R") {
+					acts = append(acts, fmt.Sprintf("%dC", wi))
+				}
+				var all []string
+				for _, h := range wrapperIdx(desc) {
+					all = append(all, fmt.Sprintf("%dQ", h))
+				}
+				tail := " " + strings.Join(all, " ") + " 0C 0Q"
+				k := 4
+				if tier == "thorough" && len(acts) <= 5 {
+					k = 5
+				}
+				perms(acts, k, func(sel []string) {
+					if len(sel) > 0 {
+						emit(desc + " | " + strings.Join(sel, " ") + tail)
+					}
+				})
+			}
+		}
+	}
+	// random trees with pairs (depth <= 5), random node-addressed op lists up to 14 ops
+	n := 20000
+	if tier == "thorough" {
+		n = 60000
 	}
 	for i := 0; i < n; i++ {
 		id := 0
 		d := randDesc(r, 1+r.Intn(5), -1, &id)
-		l := r.Intn(13)
-		var sb strings.Builder
+		ws := wrapperIdx(d.s)
+		l := r.Intn(15)
+		var sb []string
 		for j := 0; j < l; j++ {
-			sb.WriteByte("CCQQRWS"[r.Intn(7)])
+			h := 0
+			if r.Intn(10) >= 3 {
+				h = ws[r.Intn(len(ws))]
+			}
+			sb = append(sb, fmt.Sprintf("%d%c", h, "CCCQQQRWS"[r.Intn(9)]))
 		}
-		emit(d.s + " | " + sb.String())
+		emit(d.s + " | " + strings.Join(sb, " "))
 	}
 }
 
@@ -342,7 +606,7 @@ func randDesc(r *Rand, depth int, want int, id *int) wdesc {
 		return wdesc{s, 0}
 	}
 	for {
-		switch c := r.Intn(11); {
+		switch c := r.Intn(13); {
 		case c < 8:
 			toks := []string{"Sc", "Ss", "Sr", "Sw", "Nc", "Ns", "Nr", "Nw"}
 			k := c % 4
@@ -351,7 +615,7 @@ func randDesc(r *Rand, depth int, want int, id *int) wdesc {
 			}
 			in := randDesc(r, depth-1, k, id)
 			return wdesc{toks[c] + " " + in.s, k}
-		case c == 8:
+		case c <= 10:
 			if want >= 0 && !kindOK(1, want) {
 				continue
 			}
@@ -360,7 +624,7 @@ func randDesc(r *Rand, depth int, want int, id *int) wdesc {
 			return wdesc{"P " + a.s + " " + b.s, 1}
 		default:
 			in := randDesc(r, depth-1, 1, id)
-			if c == 9 {
+			if c == 11 {
 				return wdesc{"I " + in.s, 0}
 			}
 			return wdesc{"T " + in.s, 0}
